@@ -1,7 +1,10 @@
 (* C07  Restore of a snapshot reproduces the collection exactly.
 
    [c07_restore_snapshot]: for every collection s satisfying the liveness invariant (cells exist
-   only at occupied offsets - preserved by every commit, props/C11.v), restoring its snapshot
+   only at occupied offsets - preserved by every commit, props/C11.v) and [CastFixed] (what a
+   column stores is what it reads back from its own stored form: the int / uint columns widen
+   narrow put values once, and a widened value is not changed again - preserved by every commit,
+   StoreProofs.commit_cast_fixed, part of [Inv]), restoring its snapshot
    into a fresh collection with the same schema yields a collection in which EVERY column reads
    the same at EVERY offset, whose fill list is equal (so Count is equal and no later insert can
    be handed a restored row's offset), with the same column parameters - for any number of
@@ -18,15 +21,15 @@ From stdpp Require Import gmap.
 From ColumnV Require Import Bytes Store StoreProofs StoreProofs4 Check.
 
 Theorem c07_restore_snapshot : ∀ s,
-  CellsLive s →
+  CellsLive s → CastFixed s →
   let r := restore (fresh_of s) (snapshot s) in
   (∀ c i, read r c i = read s c i) ∧ fill r = fill s ∧ same_schema r s.
 Proof. exact restore_snapshot. Qed.
 Print Assumptions c07_restore_snapshot.
 
 Theorem c07_indexes_after_restore : ∀ s e rule bits e' bits' col col',
-  CellsLive s → IdxOK s → IdxOK (restore (fresh_of s) (snapshot s)) →
-  e ∈ comps s → xstate e = XIndex rule bits → cols s !! xtarget e = Some col →
+  CellsLive s → CastFixed s → IdxOK s → IdxOK (restore (fresh_of s) (snapshot s)) →
+  e ∈ comps s → xstate e = XIndex rule bits → cols s !! xtarget e = Some col → cast_invariant col rule →
   e' ∈ comps (restore (fresh_of s) (snapshot s)) → xstate e' = XIndex rule bits' → xtarget e' = xtarget e →
   cols (restore (fresh_of s) (snapshot s)) !! xtarget e' = Some col' →
   bits' = bits.
@@ -34,7 +37,7 @@ Proof. exact restore_index_membership. Qed.
 Print Assumptions c07_indexes_after_restore.
 
 Example c07_example :
-  let col := mkcol true (λ a b, b) (V8 0) ∅ in
+  let col := mkcol true (λ a b, b) (V8 0) id ∅ in
   let s0 := create_column coll0 1 col false in
   let t := mktxn None {[1%N := [mkop KPut 5 (V8 7); mkop KPut 20000 (V8 9)]]} [mkop KInsert 5 V0; mkop KInsert 20000 V0] [] in
   let s := commit s0 t in
